@@ -10,7 +10,7 @@ CONSTANTS
   NamePool = {"image0.png", "image2.png"}
   SlimDims = {"xrel", "mix", "mixin", "sty", "sdef", "sref", "bytes", "zip"}
   SlimOps = {"AddHeading", "AddFootnote", "Reopen"}
-  DimGroups = {{"base", "extra", "scheme", "ext", "media", "ns", "pkgns", "tgstyle", "pkgids", "cont", "blk"}, {"base", "extra", "scheme", "ext", "media", "tgstyle", "pkgids", "xrel"}, {"ns", "pkgns", "cont", "blk", "mix", "mixin"}, {"base", "scheme", "sty", "sdef", "sref"}}
+  DimGroups = {{"base", "extra", "scheme", "ext", "media", "ns", "pkgns", "tgstyle", "pkgids", "cont", "blk"}, {"base", "extra", "scheme", "ext", "media", "tgstyle", "pkgids", "xrel"}, {"ns", "pkgns", "cont", "blk", "mix", "mixin"}, {"base", "scheme", "sty", "sdef", "sref"}, {"base", "bytes", "zip", "place", "tgstyle", "pkgids"}}
 INVARIANTS Inv_All Inv_DetectParts Inv_DetectRels Inv_ShapeWellFormed
 PROPERTIES Act_Frame
 CHECK_DEADLOCK FALSE
